@@ -320,7 +320,7 @@ def prov_reg(ctx: Ctx, chk) -> None:
                             keep.append((ev, node))
                         evs = keep
                 for ev, node in evs:
-                    got.append((ev, f, node))
+                    got.append((_fold_field_none_tests(ev), f, node))
             key = f"{name}@{V}"
             missing = [alts for alts in want if not any(g[0] in alts for g in got)]
             extra = [g for g in got if not any(g[0] in alts for alts in want)]
@@ -338,6 +338,28 @@ def prov_reg(ctx: Ctx, chk) -> None:
                 for alts in dup:
                     chk.refute(rule, f"{name}::duplicate::{alts[0]}", f"the write `{alts[0]}` is performed more than once along the handler chain of {name} (protocol {V})", callee.chain()[-1].func.where, version=V)
     chk.floor(rule, "handler-table cells with registry effects", n, 25)
+
+
+def _fold_field_none_tests(ev: str) -> str:
+    """`A if In.<field> is None else B` -> B (and the `is not None` form -> A): the six fields of a decoded message are
+    required and typed (DECL-1), never None - a helper that defaults its optional parameters this way stores B."""
+    if " if In." not in ev or " is " not in ev:
+        return ev
+    head, _, body = ev.partition(" ")
+    try:
+        tree = ast.parse(body, mode="exec")
+    except SyntaxError:
+        return ev
+
+    class _F(ast.NodeTransformer):
+        def visit_IfExp(self, n):
+            self.generic_visit(n)
+            t = n.test
+            if isinstance(t, ast.Compare) and len(t.ops) == 1 and isinstance(t.ops[0], (ast.Is, ast.IsNot)) and isinstance(t.comparators[0], ast.Constant) and t.comparators[0].value is None and isinstance(t.left, ast.Attribute) and isinstance(t.left.value, ast.Name) and t.left.value.id == "In" and t.left.attr in ("node_id", "child_id", "command", "ack", "message_type", "payload"):
+                return n.orelse if isinstance(t.ops[0], ast.Is) else n.body
+            return n
+
+    return f"{head} {norm(_F().visit(tree).body[0])}" if tree.body else ev
 
 
 _PURE_CALLS = ("int", "float", "round", "str", "len", "min", "max", "abs", "bool", "get", "Node", "Child", "dict", "list", "tuple")
@@ -365,8 +387,6 @@ def _unmodelled_effects(ctx: Ctx, name: str, V: str, want, extra, fis) -> None:
         except SyntaxError:
             continue
         for n_ in ast.walk(tr_):
-            if isinstance(n_, ast.IfExp):
-                raise AnalysisError(f"registry writes: the write `{ev[:90]}` of {name} (protocol {V}) chooses its value at run time (conditional expression): not compared with the table")
             if isinstance(n_, ast.Call):
                 nm_ = n_.func.id if isinstance(n_.func, ast.Name) else n_.func.attr if isinstance(n_.func, ast.Attribute) else ""
                 if nm_ not in allowed:
@@ -421,7 +441,7 @@ def must_reg(ctx: Ctx, chk) -> None:
                 g = CFG(fi.node)
                 ev_nodes = []
                 for ev, node in registry_events(ctx, fi):
-                    if ev in alts:
+                    if _fold_field_none_tests(ev) in alts:
                         ev_nodes += g.nodes_where(lambda x, node=node: x.contains(node))
                 # delegation: super().<same>(...), the wrapped function of a decorator wrapper, another handler of the class
                 deleg = []
@@ -445,7 +465,7 @@ def must_reg(ctx: Ctx, chk) -> None:
                 else:
                     # a write that is there but is spelled through repository code the table comparison does not look
                     # into is not a missing write: no verdict (same test as PROV-REG)
-                    _unmodelled_effects(ctx, name, V, want, [(ev, f, node) for ev, node in registry_events(ctx, fi) if ev not in alts], [fi])
+                    _unmodelled_effects(ctx, name, V, want, [(ev, f, node) for ev, node in registry_events(ctx, fi) if _fold_field_none_tests(ev) not in alts], [fi])
                     chk.refute(rule, key, f"a normal path through {f.qualname} returns without recording the report and without delegating ({' -> '.join(g.path_text(p)[1:5])}): a received {name[7:]} message is yielded as handled but the registry does not reflect it", f.where, version=V)
     chk.floor(rule, "chain definitions of reporting handlers", n, 8)
 
